@@ -102,6 +102,9 @@ def gen_hist_case(rng, max_n=6, max_ops=7):
         elif r < 0.97:
             # a configuration reload in the middle of the history (changes schedules, never selections or values)
             ops.append(dict(kind="config", config={"nodes": {"@%d" % rng.randrange(n): {"priority": rng.randint(-3, 5), "is_sequential": rng.random() < 0.5}}, "max_concurrency": rng.randint(1, 3)}))
+        elif r >= 0.988:
+            # an executor asked for an alias that names nothing: ValueError, whatever happened on the instance before
+            ops.append(dict(kind="badalias", how=rng.choice(["target", "exclude", "root"])))
         else:
             # a DAG composed from the instance, and run: must leave the instance alone
             outs = sorted(rng.sample(range(n), rng.randint(1, min(2, n))))
@@ -151,6 +154,9 @@ def _ex(**kw):
 
 
 CORPUS = [
+    # an unknown alias after the instance has been called / set up
+    _chain_case(3, [[0, 1], [1, 2]], [dict(kind="call", args=[], run_debug=False), dict(kind="badalias", how="target"), dict(kind="badalias", how="root"), dict(kind="badalias", how="exclude")], tags={"0": "t0"}),
+    _chain_case(3, [[0, 1], [1, 2]], [dict(kind="setup", target=None, exclude=None, root=None), dict(kind="badalias", how="target")], setup=[0], is_async=True),
     # the id of the listed node (n2) is a prefix of the id of its dependency (n20)
     _chain_case(3, [[0, 1], [1, 2]], [_ex(cache_deps_of=[2], cache_in=True), _ex(cache_deps_of=[2], from_cache=0)], code=[0, 20, 2]),
     _chain_case(3, [[0, 1], [1, 2]], [_ex(target=[2], cache_in=True), _ex(cache_in=True), _ex(from_cache=0), _ex(from_cache=1)], code=[10, 1, 100]),
@@ -300,6 +306,19 @@ def run_history(case, tmpdir):
             o["status"] = "ok"
             o["executed"] = []
             o["new_instance"] = id(cur)
+            obs.append(o)
+            return
+        if k == "badalias":
+            o["executed"] = []
+            try:
+                cur.executor(**{op["how"] + "_nodes": ["zz_names_nothing"]})
+                o["status"] = "ok"
+            except ValueError as e:
+                o["status"] = "ValueError"
+                o["error"] = str(e)[:150]
+            except BaseException as e:  # noqa: BLE001
+                o["status"] = "other-raise"
+                o["error"] = "%s: %s" % (type(e).__name__, str(e)[:150])
             obs.append(o)
             return
         if k in ("config", "compose"):
@@ -504,7 +523,7 @@ def model_term(case, d, obs):
         if k == "deepcopy":
             lineage = o["new_instance"]
             continue
-        if k in ("config", "compose"):
+        if k in ("config", "compose", "badalias"):
             continue
         if lineage is not None and o.get("instance") != lineage:
             continue  # an executor created on the original and run after the copy was taken: not this lineage
@@ -613,6 +632,9 @@ def run(pid, tier, seed, res, only=None):
             if o.get("leaked"):
                 res.hit("C15", "monitor", "after operation %d (%s) the DAG-level results map holds results of non-setup node(s) %s" % (oi, o["op"]["kind"], o["leaked"]), dict(base, kind="monitor", op_index=oi))
                 break
+        for oi, o in enumerate(obs):
+            if o["op"]["kind"] == "badalias" and o["status"] != "ValueError":
+                res.hit("C12", "monitor", "operation %d: an executor with %s_nodes=[an alias that names nothing] must raise ValueError; it %s" % (oi, o["op"]["how"], "was accepted" if o["status"] == "ok" else "raised " + str(o.get("error"))), dict(base, kind="monitor", op_index=oi))
         for oi, o in enumerate(obs):
             if o["op"]["kind"] in ("config", "compose") and o["status"] == "other-raise":
                 res.hit("C15", "monitor", "operation %d (%s) raised %s" % (oi, o["op"]["kind"], o.get("error")), dict(base, kind="monitor", op_index=oi))
@@ -789,7 +811,9 @@ def run(pid, tier, seed, res, only=None):
                 exp = {3: lambda: sm["args"][sm["inputs"].index(key_)], 2: lambda: sm["cache"][key_], 1: lambda: sm["dag"][key_], 0: lambda: MISSING}[code]()
                 got = sm["res0"].get(key_, MISSING)
                 if not (got is exp or got == exp):
-                    for p_ in ("C18", "C15"):
+                    op_ = base["case"]["ops"][oi] if isinstance(oi, int) and oi < len(base["case"]["ops"]) else {}
+                    restricted_ = any(op_.get(k2_) is not None for k2_ in ("target", "exclude", "root"))
+                    for p_ in ("C18", "C15") + (("C12",) if restricted_ else ()):
                         res.hit(p_, "divergence", "K-hist: restart (operation %d): the scheduler was handed %r for %s, Cache.start_map reads it from %s: %r" % (
                             oi, None if got is MISSING else got, key_, {3: "the call's arguments", 2: "the cache file", 1: "the DAG-level map", 0: "nowhere"}[code], None if exp is MISSING else exp),
                             dict(base, kind="divergence", op_index=oi))
